@@ -209,7 +209,6 @@ letk_str = st.builds(lambda i, k, v, s: ['letk', i, 1, k, v, s], tiny, st.builds
 # ---------------------------------------------------------------------------
 class Writers:
     """AsmWriter + HtmlWriter for one (base, case) mode, built from a tiny skool file."""
-    scratch = None
     cache = {}
 
     @classmethod
@@ -230,20 +229,16 @@ class Writers:
         from skoolkit.skoolhtml import HtmlWriter, FileInfo
         from skoolkit.refparser import RefParser
         from skoolkit.config import get_config
-        if Writers.scratch is None:
-            Writers.scratch = cli.Scratch('verif-c17-')
-            Writers.scratch.__enter__()
-            import atexit
-            atexit.register(Writers.scratch.__exit__)
-            Writers.scratch.write('t.skool', SKOOL_API)
-        f = Writers.scratch.path('t.skool')
         base, case = mode
-        ap = SkoolParser(f, asm_mode=1, base=base, case=case, variables=[('foo', FOO)])
-        self.aw = AsmWriter(ap, {}, {}, get_config('skool2asm'))
-        hp = SkoolParser(f, html=True, base=base, case=case, variables=[('foo', FOO)])
-        rp = RefParser()
-        rp.parse(io.StringIO(''))
-        self.hw = HtmlWriter(hp, rp, FileInfo(Writers.scratch.dir, 'game', False, False))
+        # the files are only needed while the writers are constructed (pool workers never run atexit handlers)
+        with cli.Scratch('verif-c17-') as sc:
+            f = sc.write('t.skool', SKOOL_API)
+            ap = SkoolParser(f, asm_mode=1, base=base, case=case, variables=[('foo', FOO)])
+            self.aw = AsmWriter(ap, {}, {}, get_config('skool2asm'))
+            hp = SkoolParser(f, html=True, base=base, case=case, variables=[('foo', FOO)])
+            rp = RefParser()
+            rp.parse(io.StringIO(''))
+            self.hw = HtmlWriter(hp, rp, FileInfo(sc.dir, 'game', False, False))
         self.init = {}
         for w in (self.aw, self.hw):
             self.init[id(w)] = (dict(w.fields), dict(w.macros))
